@@ -53,6 +53,11 @@ def main():
 
     mod = importlib.import_module('corr.' + prop.lower())
     ctx = Ctx(prop, tier)
+    if os.environ.get('VERIF_PYCOV'):
+        # development aid (tools/covaudit.sh): line coverage of the Python sources of the build under test
+        import coverage, atexit
+        _cov = coverage.Coverage(data_file=os.path.join(os.environ['VERIF_PYCOV'], '.coverage'), data_suffix=True, include=[os.path.join(os.environ.get('VERIF_PREBUILT', '/nonexistent'), 'cvxopt', '*.py')])
+        _cov.start(); atexit.register(lambda: (_cov.stop(), _cov.save()))
     obligations, discharged, axioms = 0, 0, {}
     stages = {}
     tlast = [time.time()]
